@@ -19,8 +19,8 @@ RULE = ("pairs of real wormholes through the real server (bridging server when a
         "exchanged PAKE messages (or, for never-met, both closed Lonely); distinct = (class, entry "
         "mode, codes, appids).")
 ASSUMPTIONS = ["codes <= 60 chars, <= 6 words; BMP plus a few astral characters"]
-FLOORS = {"quick": {"match_cases": 100, "mismatch_cases": 150, "pake_before_code": 10, "derive_checks": 1000, "bystander_pairs": 100, "derive_in_key_notification": 80},
-          "thorough": {"match_cases": 4000, "mismatch_cases": 6000, "pake_before_code": 400, "derive_checks": 40000, "bystander_pairs": 4000, "derive_in_key_notification": 3000}}
+FLOORS = {"quick": {"match_cases": 100, "mismatch_cases": 150, "pake_before_code": 10, "derive_checks": 1000, "bystander_pairs": 100, "derive_in_key_notification": 80, "derive_after_close": 500},
+          "thorough": {"match_cases": 4000, "mismatch_cases": 6000, "pake_before_code": 400, "derive_checks": 40000, "bystander_pairs": 4000, "derive_in_key_notification": 3000, "derive_after_close": 20000}}
 CLASSES = ["same", "same", "nfc", "nfc", "onechar", "case", "extraword", "missingword", "compat",
            "nameplate", "appid", "appid+same-nfc", "nameplate-spelling"]
 WORDS = ["café", "naïve", "purple", "sausages", "한글", "éclair", "ångström", "ǆemal",
@@ -256,12 +256,35 @@ def run_case(spec):
             viol.append({"key": "C01/two-sessions-share-a-key", "msg": "", "witness": bw})
     if nokey != ["NoKeyError", "NoKeyError"]:
         viol.append({"key": "C01/derive_key-before-key/" + str(nokey), "msg": "derive_key before any key: %s" % nokey, "witness": wit()})
+    # what derive_key() gives while the session is open, to be compared with what it gives once it is over
+    PURPOSE_LATE = "vt/asked-again-after-close"
+    before_close = []
+    for app in (drv.a, drv.b):
+        try:
+            before_close.append(("ok", app.w.derive_key(PURPOSE_LATE, 24)))
+        except Exception as e:
+            before_close.append(("raised", type(e).__name__))
     drv.a.close()
     drv.b.close()
     if by is not None:
         by.a.close()
         by.b.close()
     sch.drain(120.0, 5000, until=lambda: drv.a.closed and drv.b.closed and (by is None or (by.a.closed and by.b.closed)))
+    # after the close has completed derive_key() may refuse, but it must not hand out anything else than before
+    after_close_n = 0
+    for app, before in zip((drv.a, drv.b), before_close):
+        if not app.closed:
+            continue
+        try:
+            after = ("ok", app.w.derive_key(PURPOSE_LATE, 24))
+        except Exception as e:
+            after = ("raised", type(e).__name__)
+        after_close_n += 1
+        if after[0] == "ok" and after != before:
+            viol.append({"key": "C01/derive_key-after-close-differs", "msg": "%s: derive_key(%r, 24) gave %s while open and %s after the close completed" % (
+                app.name, PURPOSE_LATE, before[1].hex()[:16] if before[0] == "ok" else before, after[1].hex()[:16]), "witness": wit()})
+        elif after[0] == "raised" and after[1] not in ("NoKeyError", "WormholeClosed"):
+            viol.append({"key": "C01/derive_key-after-close-raises/" + after[1], "msg": "%s: %s" % (app.name, after), "witness": wit()})
     world.finish()
     if by is not None:
         bv = (by.a.close_results[0] if by.a.closed else "never-closed", by.b.close_results[0] if by.b.closed else "never-closed")
@@ -287,7 +310,7 @@ def run_case(spec):
     s01 = int(any(k[1] == "S01" and k[2] == "got_code" for k in MON.cov))   # Key really went S00->S01->S11
     return {"violations": viol, "nontrivial": nontrivial,
             "counters": {"match_cases": int(expect_match), "mismatch_cases": int(not expect_match and met),
-                         "never_met_cases": int(not met), "pake_before_code": s01, "derive_checks": derive_checks, "derive_repeated_purpose": repeated[0], "derive_in_key_notification": in_callback[0],
+                         "never_met_cases": int(not met), "pake_before_code": s01, "derive_checks": derive_checks, "derive_repeated_purpose": repeated[0], "derive_in_key_notification": in_callback[0], "derive_after_close": after_close_n,
                          "class_" + kind: 1, "bystander_pairs": int(by is not None), "dilated_cases": int(dilated)},
             "sample": {"spec": spec, "code_a": code_a, "code_b": code_b, "appid_a": appid_a, "appid_b": appid_b,
                        "expect_match": expect_match, "b_mode": b_mode, "late_words": late_words,
